@@ -77,12 +77,16 @@ let mutating = function
 let base_name = function
   | "Fc" -> "F" | "Lc" -> "L" | "Uc" -> "U" | "Rc" -> "R"
   | "Ih" | "I2" | "Ih2" | "Ib" -> "I"
+  (* argument-aliasing modes: the model sees the argument's value at call time *)
+  | "Ia" | "Iha" | "I2a" | "Iba" -> "I"
+  | "E1a" -> "E1" | "EKa" -> "EK"
+  | "Fa" -> "F" | "Xa" -> "X" | "Ca" -> "C" | "La" -> "L" | "Ua" -> "U" | "Ra" -> "R"
   | "SWs" -> "SW"
   | n -> n
 
 let run_case (cfgs : string) (toks : string list) (impl_dumps : string list option) : string =
   let c = parse_cfg cfgs in
-  let dup = (c.kind = "mset" || c.kind = "mmap" || c.kind = "dms") in
+  let dup = (c.kind = "mset" || c.kind = "mmap" || c.kind = "dms" || c.kind = "ims") in
   let ismap = (c.kind = "map" || c.kind = "mmap") in
   (* the comparator is stateful in the harness (run-time direction): every variable carries its own
      direction, which travels with copy / assignment / swap; each operation is run on the model with the
